@@ -30,6 +30,7 @@ import (
 	"rgverif/internal/findings"
 	"rgverif/internal/gen"
 	"rgverif/internal/inproc"
+	"rgverif/internal/procs"
 	"rgverif/internal/seqrun"
 )
 
@@ -375,6 +376,43 @@ func main() {
 		}
 	}
 
+	// the same programs over TCP against the real binary (sample): replies and verif.dump as seen by a client
+	tcpProgs, tcpSteps := 0, 0
+	if procs.Bin(false) != "" && prop != "C03" {
+		ex, err := seqrun.NewTCPExec(filepath.Join(o.Work, "tcpsrv"))
+		if err != nil {
+			inconclusive = "TCP replay: " + err.Error()
+		} else {
+			n := o.Pick(total/10, total/10)
+			if n > 4000 {
+				n = 4000
+			}
+			for i := 0; i < n; i++ {
+				idx := total + i // programs of their own, still a function of the seed
+				prog := gen.Program(progRand(o.Seed, idx), cfg.family, cfg.maxSteps)
+				if hasBlocking(prog) {
+					continue
+				}
+				divs, st := seqrun.Run(prog, seqrun.Opts{Prog: idx, Exec: ex})
+				tcpProgs++
+				tcpSteps += st.Steps
+				for _, d := range divs {
+					d.Sig = "tcp-" + d.Sig
+					if _, ok := bySig[d.Sig]; !ok {
+						for _, c := range prog[:d.Step+1] {
+							d.Program = append(d.Program, seqrun.QuoteFull(c))
+						}
+						bySig[d.Sig] = d
+					}
+				}
+				if ex.Srv.Exited() {
+					bySig["tcp-crash"] = seqrun.Div{Kind: "crash", Detail: "server exited during TCP replay: " + ex.Srv.CrashLine(), Sig: "tcp-crash"}
+					break
+				}
+			}
+			ex.Close()
+		}
+	}
 	tcpNote := ""
 	tcpPipes, tcpCmds := 0, 0
 	tcpNames := map[string]int{}
@@ -461,6 +499,8 @@ func main() {
 			"in-process execution through server.Manager.ExecCommand with hooks of build tag verif (VerifDump/VerifCheck/VerifStripesFree)",
 			"deadlines used in these programs are far in the future or invalid, so no verdict depends on the clock",
 		}}
+	ev.Coverage["tcp_replayed_programs"] = tcpProgs
+	ev.Coverage["tcp_replayed_commands"] = tcpSteps
 	if prop == "C03" {
 		ev.Coverage["tcp_marker_pipelines"] = tcpPipes
 		ev.Coverage["tcp_marker_commands_in_sync"] = tcpCmds
